@@ -37,26 +37,26 @@ type paramInfo struct {
 
 // Ctx accumulates declarations, facts and obligations for one function.
 type Ctx struct {
-	eng     *Engine
-	pkg     *pkgInfo
-	fn      string // qualified name, e.g. sequtil.ReverseComplement
-	props   []string
-	decls   []string
-	facts   []string
-	n       int
-	obls    []*Oblig
-	counts  map[string]int
-	used    map[string]bool // spec functions referenced
-	externs map[string]bool
-	inlined map[string]bool
-	strLits map[string]string
-	usesStr bool
-	bv      bool // bit-vector mode for integers
-	params  []paramInfo
-	notes   []string
-	declSet map[string]bool
-	traces  map[string]Sl
-	curPC   string
+	eng            *Engine
+	pkg            *pkgInfo
+	fn             string // qualified name, e.g. sequtil.ReverseComplement
+	props          []string
+	decls          []string
+	facts          []string
+	n              int
+	obls           []*Oblig
+	counts         map[string]int
+	used           map[string]bool // spec functions referenced
+	externs        map[string]bool
+	inlined        map[string]bool
+	strLits        map[string]string
+	usesStr        bool
+	bv             bool // bit-vector mode for integers
+	params         []paramInfo
+	notes          []string
+	declSet        map[string]bool
+	traces         map[string]Sl
+	curPC          string
 	globalWrites   []string
 	globalWritePos token.Pos
 }
